@@ -289,7 +289,20 @@ AllLawClasses == {"MassAction", "Arrhenius", "Eyring", "EyringHS", "Radiolytic",
     \* the pieces a parameter set hands to as_RateExpr: Ea/R ; kB/h*exp(dS/R), dH/R
     "ArrheniusParts", "EyringParts",
     \* create_Piecewise(..., nan_fallback=False) with three constant pieces
-    "PiecewiseNum"}
+    "PiecewiseNum",
+    \* mk_Radiolytic(*names) for name sequences in GIVEN (not alphabetical) order
+    "RadiolyticGA", "RadiolyticBA", "RadiolyticNGA"}
+(* dose-rate names of the multi-dose radiolytic classes, in the order given to mk_Radiolytic: the i-th *)
+(* yield argument belongs to the i-th name, whatever the alphabet says                                *)
+DoseNames(c) == CASE c = "RadiolyticAB" -> <<"alpha", "beta">>
+                  [] c = "RadiolyticGA" -> <<"gamma", "alpha">>
+                  [] c = "RadiolyticBA" -> <<"beta", "alpha">>
+                  [] c = "RadiolyticNGA" -> <<"n", "gamma", "alpha">>
+                  [] OTHER -> <<>>
+MultiDose == {"RadiolyticAB", "RadiolyticGA", "RadiolyticBA", "RadiolyticNGA"}
+AllDoseNames == {"alpha", "beta", "gamma", "n"}
+GNames == {"g"} \cup { "g_" \o n : n \in AllDoseNames }
+DoseVars == {"doserate"} \cup { "doserate_" \o n : n \in AllDoseNames }
 MAArith == {"MA_mul_num", "MA_rmul_num", "MA_div_num", "MA_mul_expr", "MA_rmul_expr"}
 AllModes == {"math", "numpy", "nparray", "sympy", "units", "units-scaled"}    \* nparray: array-valued variables (two lanes)
 AllPatterns == {"none", "first", "all", "absent", "second", "keys-only", "dict"}   \* dict: args given as {name: value}
@@ -302,7 +315,7 @@ LawArgs(c, k) ==
       [] c = "Eyring"       -> <<"kB_h_times_exp_dS_R", "dH_over_R", "conc0">>
       [] c = "EyringHS"     -> <<"dH", "dS", "c0">>
       [] c = "Radiolytic"   -> <<"g">>
-      [] c = "RadiolyticAB" -> <<"g_alpha", "g_beta">>
+      [] c \in MultiDose    -> [i \in 1..Len(DoseNames(c)) |-> "g_" \o DoseNames(c)[i]]
       [] c \in {"TPoly", "RTPoly", "Log10TPoly", "Log10Wrap", "ExpWrap"} -> Coefs(k)
       [] c \in {"ShiftedTPoly", "ShiftedRTPoly", "ShiftedLog10TPoly"} -> <<"ref">> \o Coefs(k)
       [] c = "TPiecewise"   -> <<"lo", "p0", "p1", "mid", "q0", "q1", "hi">>
@@ -335,17 +348,17 @@ RateClasses == {"MassAction", "Arrhenius", "Eyring", "EyringHS", "ArrheniusAsRat
                 "MassActionCallback"} \cup MAArith
 UsesOrder(c) == c \in RateClasses \cup {"TPoly", "RTPoly", "ShiftedTPoly", "ShiftedRTPoly", "Log10TPoly",
                                        "ShiftedLog10TPoly", "Log10Wrap", "ExpWrap", "CallbackPoly"}
-UnitClasses == {"MassAction", "Arrhenius", "Eyring", "EyringHS", "Radiolytic", "RadiolyticAB", "RampedTemp",
+UnitClasses == MultiDose \cup {"MassAction", "Arrhenius", "Eyring", "EyringHS", "Radiolytic", "RampedTemp",
                 "GibbsEqConst", "ArrheniusParam", "EyringParam", "ArrheniusFromK", "ArrheniusAsRate",
                 "EyringAsRate", "ArrheniusParts", "EyringParts"}
 (* classes with variables besides the temperature (concentrations, dose rates, time): these are *)
 (* evaluated with array-valued variables too                                                    *)
-ArrayClasses == RateClasses \cup {"Radiolytic", "RadiolyticAB", "RampedTemp", "SinTemp", "EqEquation"}
+ArrayClasses == RateClasses \cup MultiDose \cup {"Radiolytic", "RampedTemp", "SinTemp", "EqEquation"}
 ModesOf(c) == IF c \in {"FitArrhenius", "FitEyring", "LeastSquares"} THEN {"numpy"}
               ELSE (AllModes \ (IF c \in UnitClasses THEN {} ELSE {"units", "units-scaled"}))
                             \ (IF c \in ArrayClasses THEN {} ELSE {"nparray"})
 (* array lanes: in mode nparray every variable in LaneVars is an array <<v * f : f in LaneFactors>> *)
-LaneVars == {"X", "Y", "density", "doserate", "doserate_alpha", "doserate_beta", "time", "T"}
+LaneVars == {"X", "Y", "density", "time", "T"} \cup DoseVars
 LaneFactors == <<<<1, 1>>, <<3, 2>>>>
 ScaleNum(x, f) == <<x[1] * f[1], x[2] * f[2], x[3]>>
 
@@ -369,7 +382,7 @@ UsesTemp(c) == c \in {"Arrhenius", "Eyring", "EyringHS", "TPoly", "RTPoly", "Shi
                       "ArrheniusFromK", "ArrheniusAsRate", "EyringAsRate", "MassActionCallback", "EqCallback",
                       "PiecewiseNum"}
 
-FixedNargs == {"MassAction", "Arrhenius", "Eyring", "EyringHS", "Radiolytic", "RadiolyticAB", "RampedTemp",
+FixedNargs == MultiDose \cup {"MassAction", "Arrhenius", "Eyring", "EyringHS", "Radiolytic", "RampedTemp",
                "SinTemp", "MassActionEq", "EqEquation", "GibbsEqConst", "MassActionCallback", "EqCallback"}
 (* trailing defaults (Eyring / EyringHS: the standard-state concentration, 1 molar) *)
 LawDefaults(c) == IF c = "Eyring" THEN [conc0 |-> NumI(1)] ELSE IF c = "EyringHS" THEN [c0 |-> NumI(1)] ELSE <<>>
@@ -409,8 +422,8 @@ LawTerms(c, a, x, k) ==
                                        TExp(TNeg(TDiv(TSub(a["dH"], TMul(x["T"], a["dS"])), TMul(x["R"], x["T"])))),
                                        TPowI(a["c0"], 1 - k), ConcProd(k, x)>>)>>
       [] c = "Radiolytic" -> <<TMul3(x["density"], x["doserate"], a["g"])>>
-      [] c = "RadiolyticAB" -> <<TMul(x["density"], TAdd(TMul(x["doserate_alpha"], a["g_alpha"]),
-                                                          TMul(x["doserate_beta"], a["g_beta"])))>>
+      [] c \in MultiDose  -> <<TMul(x["density"], TSum([i \in 1..Len(DoseNames(c)) |->
+                                    TMul(x["doserate_" \o DoseNames(c)[i]], a["g_" \o DoseNames(c)[i]])]))>>
       [] c = "TPoly"      -> <<PolyT(a, Coefs(k), x["T"])>>
       [] c = "RTPoly"     -> <<RPolyT(a, Coefs(k), x["T"])>>
       [] c = "ShiftedTPoly"  -> <<PolyT(a, Coefs(k), TSub(x["T"], a["ref"]))>>
@@ -481,9 +494,9 @@ UnitOf(c, name, k) ==
       [] name = "R" -> "J/K/mol"
       [] name = "kB" -> "J/K"
       [] name = "h" -> "J*s"
-      [] name \in {"g", "g_alpha", "g_beta"} -> "mol/J"
+      [] name \in GNames -> "mol/J"
       [] name = "density" -> "kg/dm3"
-      [] name \in {"doserate", "doserate_alpha", "doserate_beta"} -> "Gy/s"
+      [] name \in DoseVars -> "Gy/s"
       [] name = "dTdt" -> "K/s"
       [] name = "time" -> "s"
       [] OTHER -> ""
@@ -500,7 +513,7 @@ AltUnit(u) ==
 UnitGiven(c, name, k, mode) == IF mode = "units-scaled" THEN AltUnit(UnitOf(c, name, k)) ELSE [u |-> UnitOf(c, name, k), f |-> <<1, 1>>]
 ResultUnits(c, k) ==
     CASE c \in {"MassAction", "Arrhenius", "Eyring", "EyringHS", "ArrheniusAsRate", "EyringAsRate",
-                "Radiolytic", "RadiolyticAB"} -> <<"M/s">>
+                "Radiolytic"} \cup MultiDose -> <<"M/s">>
       [] c \in {"ArrheniusParam", "EyringParam"} -> <<"1/s">>
       [] c = "ArrheniusFromK" -> <<"1/s", "1/s">>
       [] c = "RampedTemp" -> <<"K">>
@@ -717,7 +730,7 @@ CaseRec ==
                    keys |-> LawKeys.u, present |-> [i \in 1..(IF LawKeys.u > 0 THEN LawKeys.u ELSE 0) |-> i \in LawKeys.present],
                    args_absent |-> PatternArgsAbsent(cfg.pattern), mode |-> cfg.mode,
                    argform |-> (IF cfg.pattern = "dict" THEN "dict" ELSE "list"), variants |-> FitVariants(cfg.cls),
-                   hist |-> Whos, tform |-> cfg.tform,
+                   hist |-> Whos, tform |-> cfg.tform, dose_names |-> DoseNames(cfg.cls),
                    ramp |-> [T0 |-> RampT0, dTdt |-> NumI(RampRate), time0 |-> NumI(Time0), time1 |-> NumI(Time1)],
                    key_units |-> [nm \in Range(LawArgs(cfg.cls, cfg.order)) |->
                                     (IF cfg.mode = "units-scaled" THEN AltUnit(KeyUnit(cfg.cls, nm, cfg.order))
